@@ -21,10 +21,10 @@ from ..kinds import KindAnalysis, TICK_TIME, FORWARDED, K
 from ..util import cfg_of, call_attr, arg, assigned_attrs, canon_text
 
 EXPLANATION = __doc__
-SINKS = {"set_value": (1, "tick_time"), "set_value_and_unit": (2, "tick_time"),
-         "simulate_value": (1, "tick_time"), "simulate_value_and_unit": (2, "tick_time")}
-SEEDS = {("openpectus.engine.engine:Engine.tick", "tick_time"): "TICK_TIME",
-         ("openpectus.engine.engine:Engine.tick", "increment_time"): "DURATION"}
+# sink method -> position of its time argument (after self); the parameter *names* are read from the signatures
+SINK_POS = {"set_value": 1, "set_value_and_unit": 2, "simulate_value": 1, "simulate_value_and_unit": 2}
+SINKS: dict = {}
+SEEDS: dict = {}
 
 
 def run(ctx) -> None:
@@ -32,6 +32,18 @@ def run(ctx) -> None:
     tag = prog.cls("openpectus.lang.exec.tags:Tag")
     tag_classes = [tag] + tag.all_subclasses()
     thorough = ctx.tier == "thorough"
+    SINKS.clear()
+    for name, pos in SINK_POS.items():
+        m = tag.methods.get(name)
+        if m is None or len(m.node.args.args) <= pos + 1:
+            raise AnchorError(f"Tag.{name}: time parameter at position {pos} not found")
+        SINKS[name] = (pos, m.node.args.args[pos + 1].arg)
+    etick = prog.func("openpectus.engine.engine:Engine.tick")
+    if len(etick.node.args.args) < 3:
+        raise AnchorError("Engine.tick(tick_time, increment_time): signature changed")
+    SEEDS.clear()
+    SEEDS[("openpectus.engine.engine:Engine.tick", etick.node.args.args[1].arg)] = "TICK_TIME"
+    SEEDS[("openpectus.engine.engine:Engine.tick", etick.node.args.args[2].arg)] = "DURATION"
     ka = KindAnalysis(prog, res, SEEDS, tests=False, config=False)
     ctx.extra["kind_fixpoint_rounds"] = ka.rounds
     ctx.rule("R16a", "time arguments of tag writers have kind TICK_TIME")
